@@ -285,7 +285,28 @@ FrameClauses(dec, rgs, lfs, cobj, fe, multi) ==
                THEN {} ELSE {"C03.SlotBytes"})
          ELSE {})
    \cup  \* ---- C13: index metadata ------------------------------------------------------------
-        (IF ~fe.has_rows \/ ~fe.index.ok THEN {}
+        (IF fe.has_rows /\ ~fe.index.ok /\ fe.index.wide.ok
+         THEN \* integer index values beyond TLC's integers: judged on the IEEE double images of the exact statistics
+         LET w    == fe.index.wide
+             nd   == Len(w.dimg)
+             imin == AttrOf(r, fo, lINDEXMIN)
+             imax == AttrOf(r, fo, lINDEXMAX)
+             spc  == AttrOf(r, fo, lSPACING)
+             dir  == AttrOf(r, fo, lDIRECTION)
+             is(a, img) == ~a.absent /\ Len(a.vals) = 1 /\ a.vals[1].k = "bits" /\ a.vals[1].code = FDOUBL /\ a.vals[1].b = img
+             uniform == \A i \in 1..nd : w.dimg[i] = w.dimg[1]
+             uMin == UserAssigned(c, lINDEXMIN)   uMax == UserAssigned(c, lINDEXMAX)
+             uSpc == UserAssigned(c, lSPACING)    uDir == UserAssigned(c, lDIRECTION)
+         IN IF ~UserAssigned(c, lINDEXTYPE) THEN {}
+            ELSE (IF ~uMin /\ ~is(imin, w.min) THEN {"C13.IndexMin"} ELSE {})
+            \cup (IF ~uMax /\ ~is(imax, w.max) THEN {"C13.IndexMax"} ELSE {})
+            \cup (IF ~uSpc /\ nd >= 1 /\ ~spc.absent /\ ~uniform THEN {"C13.SpacingOnlyIfUniform"} ELSE {})
+            \cup (IF ~uSpc /\ nd >= 1 /\ ~spc.absent /\ uniform /\ ~is(spc, w.dimg[1]) THEN {"C13.SpacingValue"} ELSE {})
+            \cup (IF ~uSpc /\ ~uDir /\ nd >= 1 /\ spc.absent
+                  THEN (IF (\A i \in 1..nd : w.dsign[i] > 0) /\ OneStr(dir) # sINCREASING THEN {"C13.Direction"} ELSE {})
+                  \cup (IF (\A i \in 1..nd : w.dsign[i] < 0) /\ OneStr(dir) # sDECREASING THEN {"C13.Direction"} ELSE {})
+                  ELSE {})
+         ELSE IF ~fe.has_rows \/ ~fe.index.ok THEN {}
          ELSE
          LET v    == [i \in DOMAIN fe.index.vals |-> LimToInt(fe.index.vals[i])]
              n    == Len(v)
